@@ -51,6 +51,11 @@ func isHandleType(ty types.Type) bool {
 // (`<type>_ops`: the methods it calls, `set_F`/`get_F` for the exported fields it writes and reads).  Other abstract
 // objects handed to a method go in as their state and come back as their new state (the operation is polymorphic in
 // their types: it can do nothing with them but hand them back, which is all the translated code can tell).
+// pureObservers: methods of library interfaces that are pure functions of the value behind the handle (documented so: a
+// color.Color's RGBA is "the alpha-premultiplied red, green, blue and alpha values for the color").  TRUSTED: that they
+// are pure, i.e. a caller-supplied colour does not answer differently from call to call.
+var pureObservers = map[string]bool{"image/color.Color.RGBA": true}
+
 var opaqueTypes = map[string]bool{"golang.org/x/image/vector.Rasterizer": true}
 
 func opaqueOf(ty types.Type) (string, bool) {
@@ -127,6 +132,7 @@ type fnInfo struct {
 	specKey     string
 	gdeps       map[*types.Package]bool
 	ifaces      map[string]bool
+	exts        map[string]string  // pure observers of library handles used (see pureObservers): parameter name -> Lean type
 	retConcrete map[int]types.Type // interface-typed results that always box one concrete type
 	needInh     bool               // mentions `default` at an abstract object type (a panic leaf, exhausted fuel): needs [Inhabited R]
 	fuel        bool               // takes a fuel argument (has a loop or recursion, or calls something that does)
@@ -1899,6 +1905,10 @@ func (c *ctx) call(s *state, x *ssa.Call, d int) {
 		c.info.ifaces[in] = true
 		iargs = append(iargs, "I_"+in)
 	}
+	for _, x := range sortedStrKeys(ci.exts) {
+		c.info.exts[x] = ci.exts[x]
+		iargs = append(iargs, x)
+	}
 	if ci.needInh {
 		c.usesDefault = true
 	}
@@ -2054,6 +2064,33 @@ func (c *ctx) opaqueCall(s *state, x *ssa.Call, callee *ssa.Function, on string,
 func (c *ctx) invoke(s *state, x *ssa.Call, d int) {
 	com := x.Common()
 	recv := c.val(s, com.Value)
+	if n, ok := com.Value.Type().(*types.Named); ok && !recv.iface && recv.expr != "" && isHandleType(n) && n.Obj().Pkg() != nil &&
+		pureObservers[n.Obj().Pkg().Path()+"."+n.Obj().Name()+"."+com.Method.Name()] && len(com.Args) == 0 {
+		// a pure observer of a library value (`color.Color.RGBA()`): a function of the handle, the same whenever it is asked —
+		// an extra parameter `X_<type>_<method>` of every function that (transitively) uses it
+		sig := com.Method.Type().(*types.Signature)
+		var rs []string
+		for j := 0; j < sig.Results().Len(); j++ {
+			if !firstOrder(sig.Results().At(j).Type()) {
+				fail("observer with a result that is not first-order")
+			}
+			rs = append(rs, c.t.leanType(sig.Results().At(j).Type()))
+		}
+		pname := "X_" + pkgShort(n.Obj().Pkg()) + "_" + n.Obj().Name() + "_" + com.Method.Name()
+		c.info.exts[pname] = "Go.Ref → (" + strings.Join(rs, " × ") + ")"
+		name := c.prefix + x.Name()
+		fmt.Fprintf(&c.out, "%slet %s := (%s %s)\n", ind(d), name, pname, recv.expr)
+		var comps []sym
+		for j := range rs {
+			comps = append(comps, sym{expr: proj(name, j, len(rs)), typ: sig.Results().At(j).Type()})
+		}
+		if len(comps) == 1 {
+			s.env[x] = comps[0]
+		} else {
+			s.env[x] = sym{comps: comps, typ: x.Type()}
+		}
+		return
+	}
 	if !recv.iface || recv.ptr == nil {
 		fail("interface method call %s on a value of unknown origin", com.Method.Name())
 	}
@@ -2846,7 +2883,7 @@ func (t *translator) runInit(pk *ssa.Package) {
 	if init == nil || len(init.Blocks) < 2 {
 		return
 	}
-	c := &ctx{t: t, info: &fnInfo{calls: map[*ssa.Function]bool{}, gdeps: map[*types.Package]bool{}, ifaces: map[string]bool{}}, fn: init, inputs: map[string]ioPath{}, outputs: map[string]ioPath{}, pcell: map[int]int{}, inInit: true,
+	c := &ctx{t: t, info: &fnInfo{calls: map[*ssa.Function]bool{}, gdeps: map[*types.Package]bool{}, ifaces: map[string]bool{}, exts: map[string]string{}}, fn: init, inputs: map[string]ioPath{}, outputs: map[string]ioPath{}, pcell: map[int]int{}, inInit: true,
 		prefix: "init_" + pkgShort(pk.Pkg) + "_"}
 	s := &state{env: map[ssa.Value]sym{}, cells: map[int]*cell{}}
 	gcell := map[*ssa.Global]*cell{}
@@ -3044,7 +3081,7 @@ func (t *translator) translateSpec(fn *ssa.Function, spec map[int]*ssa.Function)
 	} else if old, ok := t.specs[fn.String()+key]; ok {
 		return old
 	}
-	fi = &fnInfo{written: map[int]bool{}, escapes: map[int]bool{}, fn: fn, name: t.fnName(fn) + key, busy: true, calls: map[*ssa.Function]bool{}, callsFi: map[*fnInfo]bool{}, spec: spec, specKey: key, gdeps: map[*types.Package]bool{}, ifaces: map[string]bool{}}
+	fi = &fnInfo{written: map[int]bool{}, escapes: map[int]bool{}, fn: fn, name: t.fnName(fn) + key, busy: true, calls: map[*ssa.Function]bool{}, callsFi: map[*fnInfo]bool{}, spec: spec, specKey: key, gdeps: map[*types.Package]bool{}, ifaces: map[string]bool{}, exts: map[string]string{}}
 	if key == "" {
 		t.funcs[fn] = fi
 		if fn.Synthetic != "" {
@@ -3078,6 +3115,7 @@ func (t *translator) translateSpec(fn *ssa.Function, spec map[int]*ssa.Function)
 	prevSig := ""
 	for pass := 0; pass < 6; pass++ {
 		fi.ifaces = map[string]bool{}
+		fi.exts = map[string]string{}
 		c = &ctx{t: t, info: fi, fn: fn, inputs: map[string]ioPath{}, outputs: map[string]ioPath{}, pcell: map[int]int{}, fixedOut: fixedOut}
 		wasSelfRec := fi.selfRec
 		if wasSelfRec {
@@ -3174,7 +3212,7 @@ func (t *translator) translateSpec(fn *ssa.Function, spec map[int]*ssa.Function)
 		for _, io := range newOut {
 			sig += io.name + ","
 		}
-		sig += "|" + strings.Join(sortedKeys(fi.ifaces), ",")
+		sig += "|" + strings.Join(sortedKeys(fi.ifaces), ",") + "|" + strings.Join(sortedStrKeys(fi.exts), ",")
 		fi.retConcrete = c.retConcrete
 		for i := 0; i < fn.Signature.Results().Len(); i++ {
 			if ct, ok := c.retConcrete[i]; ok {
@@ -3202,6 +3240,9 @@ func (t *translator) translateSpec(fn *ssa.Function, spec map[int]*ssa.Function)
 		} else {
 			ps = append(ps, fmt.Sprintf("{R_%s : Type} (I_%s : %s_ops R_%s)", in, in, in, in))
 		}
+	}
+	for _, x := range sortedStrKeys(fi.exts) {
+		ps = append(ps, fmt.Sprintf("(%s : %s)", x, fi.exts[x]))
 	}
 	if fi.fuel {
 		ps = append(ps, "(fuel : Nat)")
